@@ -93,7 +93,13 @@ def pipeline(pid, tier, rep, extra_judges=()):
     prefix = pid + "."
     fmts = FMTS if pid == "C05" else ["loc311", "loc313"]
     beh = gen_tables(d, rep, fmts, 2 if quick else 3, 2, 0 if quick else 1)
-    gen_x = rec_xdis(d, "gen", beh, "g", env=None if quick else {"VERIF_GEN_TABLES": "all"})
+    gen_x = rec_xdis(d, "gen", beh, "g")
+    if not quick:
+        # thorough: the tables of up to three entries (about 400 000) are read under the opcode tables at the ends of each era, as in the
+        # quick tier; the tables of up to two entries are read under EVERY opcode table of their era
+        beh2 = gen_tables(d, rep, fmts, 2, 2, 0)
+        have = set(r_["id"] for r_ in gen_x)
+        gen_x += [r_ for r_ in rec_xdis(d, "gen", beh2, "g2", env={"VERIF_GEN_TABLES": "all"}) if r_["id"] not in have]
     gen_o = []
     jobs = []
     for f in fmts:
